@@ -190,7 +190,109 @@ def b_explicit_result_var(root: Path) -> None:
     p.write_text(s)
 
 
+def b_operator_table(root: Path) -> None:
+    """identify_operators driven by a dict instead of an elif chain."""
+    p = root / "mathy_core/tokenizer.py"
+    tree = ast.parse(p.read_text())
+    new_fn = ast.parse('''
+def identify_operators(self, context):
+    """Identify and tokenize operators."""
+    table = {"+": ("+", TOKEN_TYPES.Plus), "-": ("-", TOKEN_TYPES.Minus), "–": ("-", TOKEN_TYPES.Minus),
+             "*": ("*", TOKEN_TYPES.Multiply), "/": ("/", TOKEN_TYPES.Divide), "^": ("^", TOKEN_TYPES.Exponent),
+             "!": ("!", TOKEN_TYPES.Factorial), "(": ("(", TOKEN_TYPES.OpenParen), "[": ("(", TOKEN_TYPES.OpenParen),
+             ")": (")", TOKEN_TYPES.CloseParen), "]": (")", TOKEN_TYPES.CloseParen), "=": ("=", TOKEN_TYPES.Equal)}
+    ch = context.chunk[0]
+    if ch in (" ", "\\t", "\\r", "\\n"):
+        if not self.exclude_padding:
+            context.tokens.append(Token(ch, TOKEN_TYPES.Pad))
+    elif ch in table:
+        entry = table[ch]
+        context.tokens.append(Token(entry[0], entry[1]))
+    else:
+        raise ValueError(f'Invalid token "{ch}" in expression: {context.buffer}')
+    context.index += 1
+    return True
+''').body[0]
+    for n in ast.walk(tree):
+        if isinstance(n, ast.ClassDef) and n.name == "Tokenizer":
+            for i, m in enumerate(n.body):
+                if isinstance(m, ast.FunctionDef) and m.name == "identify_operators":
+                    n.body[i] = new_fn
+    ast.fix_missing_locations(tree)
+    p.write_text(ast.unparse(tree) + "\n")
+
+
+def b_priority_table(root: Path) -> None:
+    """get_priority as a loop over a (class, priority) table."""
+    p = root / "mathy_core/expressions.py"
+    tree = ast.parse(p.read_text())
+    new_fn = ast.parse('''
+def get_priority(self):
+    table = [(PowerExpression, OOO_EXPONENT), (MultiplyExpression, OOO_MULTDIV), (DivideExpression, OOO_MULTDIV),
+             (AddExpression, OOO_ADDSUB), (SubtractExpression, OOO_ADDSUB)]
+    for cls, priority in table:
+        if isinstance(self, cls):
+            return priority
+    return OOO_INVALID
+''').body[0]
+    for n in ast.walk(tree):
+        if isinstance(n, ast.ClassDef) and n.name == "BinaryExpression":
+            for i, m in enumerate(n.body):
+                if isinstance(m, ast.FunctionDef) and m.name == "get_priority":
+                    n.body[i] = new_fn
+    ast.fix_missing_locations(tree)
+    p.write_text(ast.unparse(tree) + "\n")
+
+
+def b_parser_loops(root: Path) -> None:
+    """parse_add with `while True ... break`; parse_unary's error test reordered."""
+    p = root / "mathy_core/parser.py"
+    s = p.read_text()
+    old = "        exp = self.parse_mult()\n        while self.check(_IS_ADD):\n            opType = self.current_token.type\n"
+    new = "        exp = self.parse_mult()\n        while True:\n            if not self.check(_IS_ADD):\n                break\n            opType = self.current_token.type\n"
+    assert old in s
+    s = s.replace(old, new)
+    old2 = "        if not expected or exp is None:\n            assert self._all_tokens is not None\n            input_str = \"\".join([str(f.value) for f in self._all_tokens])\n            raise InvalidSyntax(\n                \"Expected a function/variable/parenthesis"
+    assert old2 in s
+    s = s.replace(old2, "        if exp is None or not expected:\n            assert self._all_tokens is not None\n            input_str = \"\".join([str(f.value) for f in self._all_tokens])\n            raise InvalidSyntax(\n                \"Expected a function/variable/parenthesis")
+    p.write_text(s)
+
+
+def b_rule_early_returns(root: Path) -> None:
+    """CommutativeSwap.can_apply_to / AssociativeSwap.can_apply_to restructured with early returns and a local helper."""
+    p = root / "mathy_core/rules/associative_swap.py"
+    s = p.read_text()
+    old = s[s.index("    def can_apply_to(self, node: MathExpression) -> bool:"):s.index("    def apply_to(self, node: MathExpression)")]
+    new = '''    def can_apply_to(self, node: MathExpression) -> bool:
+        parent = node.parent
+        if parent is None:
+            return False
+        for kind in (AddExpression, MultiplyExpression):
+            if isinstance(node, kind):
+                return isinstance(parent, kind)
+        return False
+
+'''
+    p.write_text(s.replace(old, new))
+    p = root / "mathy_core/rules/distributive_multiply_across.py"
+    s = p.read_text()
+    old = s[s.index("    def can_apply_to(self, node: MathExpression) -> bool:"):s.index("    def apply_to(self, node: MathExpression)")]
+    new = '''    def can_apply_to(self, node: MathExpression) -> bool:
+        if not isinstance(node, MultiplyExpression):
+            return False
+        left_is_sum = isinstance(node.left, AddExpression)
+        right_is_sum = isinstance(node.right, AddExpression)
+        return bool((left_is_sum and node.right) or (right_is_sum and node.left))
+
+'''
+    p.write_text(s.replace(old, new))
+
+
 BENIGN: Dict[str, Tuple[Callable[[Path], None], List[str]]] = {
+    "operator-table": (b_operator_table, ["C11", "C12"]),
+    "priority-table": (b_priority_table, ["C04", "C09"]),
+    "parser-loops": (b_parser_loops, ["C03", "C10", "C12"]),
+    "rule-early-returns": (b_rule_early_returns, ["C01", "C06", "C07", "C08", "C15"]),
     "unparse-all": (b_unparse_all, ALL),
     "rename-locals": (b_rename_locals, ["C01", "C06", "C07", "C15", "C16", "C08"]),
     "nested-ifs": (b_nested_ifs, ["C01", "C02", "C06", "C07", "C08", "C16"]),
